@@ -7,6 +7,8 @@ import (
 	"os"
 	"os/exec"
 	"strconv"
+	"sync"
+	"verif/mc"
 
 	"verif/ev"
 	"verif/gen"
@@ -62,6 +64,33 @@ func init() {
 			r.Distinct(strconv.Itoa(i))
 		}
 		r.Assumption("AddRange only compares bounds and adds/subtracts one, so behaviour is invariant under order-preserving renaming of runes: a universe of 8 (11) points reaches every case of the switch")
+		// second part: the case ranges of every state of every emitted transition table of the lexical families are
+		// sorted, pairwise disjoint and non-empty (each rune selects at most one transition)
+		sw, done := newSweeper(t, "c18")
+		defer done()
+		_, fams := lexFamilies(tier)
+		var mu sync.Mutex
+		for _, fam := range []string{"L1", "L2", "L5", "L6"} {
+			gs := fams[fam]
+			texts := make([]string, len(gs))
+			for i, g := range gs {
+				texts[i] = g.Text()
+			}
+			sw.run(texts, nil, true, false, func(o *GenOut) {
+				if o.Lex == nil {
+					return
+				}
+				mu.Lock()
+				defer mu.Unlock()
+				r.Add("emitted_tables_checked", 1)
+				for _, st := range o.Lex.States {
+					r.Add("emitted_classes_checked", int64(len(st.Cases)))
+				}
+				if msg := mc.PartitionCheck(o.Lex); msg != "" {
+					r.Violate("c18emit", o.Text, "emitted transition table: "+msg+"\n  grammar: "+oneLine(o.Text), map[string]any{"grammar": o.Text})
+				}
+			})
+		}
 		for _, v := range o.Violations {
 			key := fmt.Sprintf("path=%v op=%v", v["path"], v["op"])
 			v["universe"] = K
